@@ -263,17 +263,19 @@ def q2(run, project):
     # state: (child status, parent status, flag value)
     viol = []
     seen = set()
-    work = [(cfg.entry, ("NONE", "HELD", None))]
+    work = [(cfg.entry, ("NONE", "HELD", None, None))]
     bufvars = set()
     while work:
         node, st = work.pop()
         if (node.id, st) in seen:
             continue
         seen.add((node.id, st))
-        ch, pa, fl = st
+        ch, pa, fl, carry = st
         if node is cfg.exit:
             if ch == "HELD":
                 viol.append((node, "a pulled event is still held when the function returns (dropped)", None))
+            if carry is not None:
+                viol.append((node, f"the event moved to `{carry}` is not handed back when the function returns (dropped)", None))
             continue
         if node is cfg.raise_exit:
             continue
@@ -296,7 +298,7 @@ def q2(run, project):
                 if lab == "iter":
                     if ch == "HELD":
                         viol.append((node, f"`{var}` is overwritten by the next pulled event before it was shown (event dropped)", node.ast))
-                    work.append((s, ("HELD", pa, fl)))
+                    work.append((s, ("HELD", pa, fl, carry)))
                 else:
                     # exhausted: the loop variable keeps the last event it was bound to
                     work.append((s, st))
@@ -313,14 +315,26 @@ def q2(run, project):
                     viol.append((node, f"`{var}` is overwritten by the next pulled event before it was shown (event dropped)", a))
                 # normal edge: HELD; exception edge (StopIteration): unchanged
                 for lab, s in node.succ:
-                    work.append((s, ("HELD", pa, fl)))
+                    work.append((s, ("HELD", pa, fl, carry)))
                 for h in cfg.handlers_of(node):
-                    work.append((h, (ch if ch != "HELD" else "DISPOSED", pa, fl)))
+                    work.append((h, (ch if ch != "HELD" else "DISPOSED", pa, fl, carry)))
                 continue
             if isinstance(a.value, ast.Constant) and a.value.value is None:
-                nst = ("NONE", pa, fl)
+                nst = ("NONE", pa, fl, carry)
         elif isinstance(a, ast.Assign) and flag and norm(a.targets[0]) == flag and isinstance(a.value, ast.Constant):
-            nst = (ch, pa, a.value.value)
+            nst = (ch, pa, a.value.value, carry)
+        elif isinstance(a, ast.Assign) and len(a.targets) == 1 and isinstance(a.targets[0], ast.Name) and a.targets[0].id != var \
+                and isinstance(a.value, ast.Name) and a.value.id == var:
+            # the held event moves to another name, which has to be handed back
+            if ch == "DISPOSED":
+                viol.append((node, f"`{var}` is kept for handing back although it was already shown", a))
+            if carry is not None:
+                viol.append((node, f"the event moved to `{carry}` is overwritten (dropped)", a))
+            nst = ("DISPOSED" if ch == "HELD" else ch, pa, fl, a.targets[0].id if ch == "HELD" else carry)
+        elif isinstance(a, ast.Assign) and len(a.targets) == 1 and isinstance(a.targets[0], ast.Name) and carry is not None \
+                and a.targets[0].id == carry:
+            viol.append((node, f"the event moved to `{carry}` is overwritten (dropped)", a))
+            nst = (ch, pa, fl, None)
         else:
             k = disposal(a, var)
             if k:
@@ -328,19 +342,21 @@ def q2(run, project):
                     viol.append((node, f"`{var}` is shown twice", a))
                 if ch == "NONE" and k != "return":
                     viol.append((node, f"`{var}` is used although nothing is held", a))
-                nst = ("DISPOSED" if ch != "NONE" else "NONE", pa, fl)
+                nst = ("DISPOSED" if ch != "NONE" else "NONE", pa, fl, carry)
             kp = disposal(a, parent)
             if kp:
                 if pa == "DISPOSED":
                     viol.append((node, "the list parent is shown twice", a))
-                nst = (nst[0], "DISPOSED", fl)
+                nst = (nst[0], "DISPOSED", fl, carry)
             if isinstance(a, ast.Return):
                 # parent must have been shown unless the list had element rows (non-byte list, not empty)
                 if nst[1] == "HELD" and fl is not False:
                     viol.append((node, "the list parent event is not shown on this exit (neither its row nor element rows)", a))
                 if nst[0] == "HELD":
                     viol.append((node, f"`{var}` is neither shown nor handed back on this exit (event dropped)", a))
-                work.append((cfg.exit, ("NONE", nst[1], fl)))
+                if carry is not None and not (a.value is not None and norm(a.value) == carry):
+                    viol.append((node, f"the event moved to `{carry}` is not handed back on this exit (event dropped)", a))
+                work.append((cfg.exit, ("NONE", nst[1], fl, None)))
                 continue
         for lab, s in node.succ:
             work.append((s, nst))
